@@ -56,7 +56,7 @@ for n in (0, 1, 2):
 //@   ensures [C25] made: fresh(result) && result.handler == h && fresh(result.RetryTransaction) && result.snPublish == nil &&
 //@      fresh(result.RetryTransaction.TransactionBase) && fresh(result.RetryTransaction.TransactionBase.done)
 //@   ensures [C25] made_wf: bp%dWF(result)
-//@   ensures [C25] made_idle: result.State == nil && result.Data == nil && !finished(result.RetryTransaction.TransactionBase)
+//@   ensures [C25] made_idle: result.State == nil && result.Data == nil && !finished(result.RetryTransaction.TransactionBase) && result.RetryTransaction.timer == nil
 //@   ensures [C25] made_owner: result.RetryTransaction.owner == box(%s, result)
 '''.replace('QOS%d\n', 'QOS%dTransaction\n') % (n, T(n), n, T(n)))
 
